@@ -824,10 +824,10 @@ def bad_arg(rng):
 
 def gen_spin(tier, rng, pool):
     th = tier == "thorough"
-    reps = 3 if th else 1
+    reps = 6 if th else 1
     for desc in pool:
         L = nsites_of(desc)
-        if L > (16 if th else 13):
+        if L > (18 if th else 13):
             continue
         for _ in range(reps):
             # dense reference matrix: always for small lattices, for a third of the larger ones
@@ -863,7 +863,7 @@ def gen_spin(tier, rng, pool):
 
 def gen_hubbard(tier, rng, pool):
     th = tier == "thorough"
-    reps = 2 if th else 1
+    reps = 4 if th else 1
     for desc in pool:
         L = nsites_of(desc)
         # spinless on every lattice
@@ -966,7 +966,7 @@ def gen_molecular(tier, rng):
     cs = [{"k": "float", "v": 1.5}, {"k": "int", "v": -2}, {"k": "float", "v": 0.0}, {"k": "npfloat64", "v": 0.25}, {"k": "complex", "v": 1},
           {"k": "bool", "v": 1}]
     for n in ([1, 2, 3, 4] if th else [1, 2, 3]):
-        reps = (3 if n <= 3 else 1) if th else (2 if n <= 2 else 1)
+        reps = (6 if n <= 3 else 2) if th else (2 if n <= 2 else 1)
         dense = DENSE_MAX_FERMI
         for _ in range(reps):
             for kind in ("herm+var", "herm", "var", "none"):
